@@ -12,9 +12,10 @@ implementation half and (b) the correspondence of the real code with the Lean mo
   against the abstract one.
 * loader: seeded histories (see harness/gen_loader.py).
 """
-import itertools, json, os, random
+import collections, itertools, json, os, random
 from harness import proto, stage
 from harness import gen_lru as G
+from harness import gen_loader as GL
 from harness.framework import Result, pmap
 
 PROP = 'C15'
@@ -193,6 +194,134 @@ def inherited_case(case):
     return None
 
 
+# --------------------------------------------------------------------------
+# loader histories
+
+def run_history(cfg, ops, strict, root, want_answers=True):
+    """the property oracle on the real loader for one history (+ what the real loader did, for
+    the correspondence). Returns (failure-or-None, answers, stats)"""
+    case = {'kind': 'hist', 'cfg': cfg, 'ops': ops, 'strict': strict}
+    run = GL.RealRun(cfg, root)
+    spec = GL.PropSpec(cfg, strict=strict)
+    answers = []
+    stats = collections.Counter()
+    fail = None
+
+    def bad(i, what, expected, observed):
+        return {'case': case, 'what': 'operation %d %s: %s' % (i, json.dumps(ops[i]), what),
+                'expected': expected, 'observed': observed}
+    try:
+        for i, op in enumerate(ops):
+            if op[0] != 'L':
+                spec.fs_op(op)
+                run.fs_op(op)
+                answers.append('U')
+                continue
+            r = op[1]
+            before = run.snapshot()
+            exp = spec.load(r)
+            if exp is None:
+                answers.append('unmodelled')
+                continue
+            kind, val = run.load(r)
+            after = run.snapshot()
+            if want_answers:
+                answers.append(GL.real_answer(run, kind, val))
+            stats['load:' + (exp['kind'] if exp['kind'] == 'ok' else exp['err'])] += 1
+            if exp['kind'] == 'ok':
+                stats['serve:' + exp['serve'][0]] += 1
+            if fail:
+                continue
+            # --- the clauses of the property
+            if run.lock_depth() != 0:
+                fail = bad(i, 'the lock is released on every exit', 0, run.lock_depth())
+            elif after['len'] > cfg['cap']:
+                fail = bad(i, 'at most max_cache_size templates are cached', cfg['cap'], after['len'])
+            elif exp['kind'] == 'ok':
+                if kind != 'ok':
+                    fail = bad(i, 'load succeeds', 'a template with content v%d' % exp['content'], 'raises ' + val)
+                else:
+                    d = run.describe(val)
+                    if d['content'] != exp['content'] or d['loc'] != tuple(exp['loc']):
+                        fail = bad(i, 'returned template is parsed from the %s' % (
+                            'current content of the file found first on the search path' if strict else
+                            'current content of the file it came from / first on the path when parsed'),
+                            {'content': exp['content'], 'file': list(exp['loc'])},
+                            {'content': d['content'], 'file': list(d['loc'] or [])})
+                    elif d['obj'] != exp['serve'][1]:
+                        fail = bad(i, 'object identity (%s)' % ('the same object while nothing changed'
+                                   if exp['serve'][0] == 'cached' else 'a newly parsed template'),
+                                   'template #%d' % exp['serve'][1], 'template #%d' % d['obj'])
+                    elif [(tuple(k), o) for k, o in after['order']] != exp['cache']:
+                        fail = bad(i, 'cache contents, most recently used first (least recently used evicted first)',
+                                   [[list(k), o] for k, o in exp['cache']], [[list(k or ()), o] for k, o in after['order']])
+            else:
+                if kind != 'err' or val != exp['err']:
+                    fail = bad(i, 'load fails', exp['err'], val if kind == 'err' else 'returns a template')
+                elif after['mapping'] != before['mapping'] or after['uptodate'] != before['uptodate']:
+                    fail = bad(i, 'a failed load leaves the cache and _uptodate as they were',
+                               sorted(before['mapping']), sorted(after['mapping']))
+                elif after['order'] != before['order']:
+                    key = exp['key']
+                    moved = [x for x in before['order'] if x[0] == key] + [x for x in before['order'] if x[0] != key]
+                    if exp['touched'] and after['order'] == moved:
+                        spec.touch_failed(key)      # the lookup counted as a use; nothing else changed
+                        stats['failed-load-touched'] += 1
+                    else:
+                        fail = bad(i, 'a failed load leaves the cache order as it was (or only marks the requested key as used)',
+                                   [[list(k), o] for k, o in before['order']], [[list(k or ()), o] for k, o in after['order']])
+            if not fail and len(run.inst_log) != exp['instantiated']:
+                fail = bad(i, 'number of templates parsed so far (a parse happens exactly when the template is not served from the cache)',
+                           exp['instantiated'], len(run.inst_log))
+            elif not fail and cfg['callback'] and (len(run.cb_log) != len(run.inst_log) or
+                                      any(a is not b for a, b in zip(run.cb_log, run.inst_log))):
+                fail = bad(i, 'the callback runs exactly once per parse, with the parsed template',
+                           'callbacks = parsed templates (%d)' % len(run.inst_log), '%d callbacks' % len(run.cb_log))
+    finally:
+        run.close()
+    return fail, answers, stats
+
+
+def hist_compare(batch, res, stream):
+    lines = [GL.wire_history(cfg, ops) for cfg, ops, _, _ in batch]
+    answers = proto.run_lines(lines)
+    for (cfg, ops, strict, real), ans in zip(batch, answers):
+        res.streams[stream] = res.streams.get(stream, 0) + 1
+        exp = proto.enc([proto.Atom(a) if isinstance(a, str) else a for a in real])
+        if ans != exp:
+            res.disagreements.append({'stream': stream, 'case': {'kind': 'hist', 'cfg': cfg, 'ops': ops, 'strict': strict},
+                                      'model': ans[:1500], 'real': exp[:1500]})
+
+
+def hist_shard(arg):
+    seed, idx, n, maxlen = arg
+    rng = random.Random('%s/%s/C15-hist' % (seed, idx))
+    res = Result()
+    root = os.path.join(proto.ROOT, '.build', 'c15-%d-%d' % (os.getpid(), idx))
+    batch = []
+    for j in range(n):
+        cfg, ops, shadow = GL.gen_history(rng, maxlen)
+        fail, answers, stats = run_history(cfg, ops, not shadow, root)
+        res.evaluations += 1
+        for k, v in stats.items():
+            res.count(k, v)
+        res.count('hist:cap%d' % cfg['cap'])
+        res.count('hist:' + ('auto_reload' if cfg['auto_reload'] else 'no_reload'))
+        res.count('hist:shadow' if shadow else 'hist:strict')
+        if fail:
+            res.failures.append(fail)
+            continue
+        nl = sum(1 for o in ops if o[0] == 'L')
+        if nl >= 2 and stats['serve:cached'] and (stats['serve:new'] >= 2 or
+                        any(k in stats for k in ('load:TemplateSyntaxError', 'load:CallbackError', 'load:LoadFuncError'))):
+            res.nontrivial.add('hist:%s/%s/%d' % (seed, idx, j))
+        batch.append((cfg, ops, not shadow, answers))
+        if j < 1:
+            res.samples.append({'kind': 'hist', 'cfg': cfg, 'ops': ops[:8]})
+    hist_compare(batch, res, 'loader-histories')
+    return res
+
+
 def lru_args(ctx):
     L = ctx.n(7, 9)
     args = []
@@ -211,6 +340,9 @@ def run(ctx):
         res.merge(r)
     nr = ctx.n(300, 6000)
     for r in pmap('harness.props.c15', 'lru_random_shard', [(ctx.seed, i, nr) for i in range(16)]):
+        res.merge(r)
+    nh = ctx.n(200, 6500)
+    for r in pmap('harness.props.c15', 'hist_shard', [(ctx.seed, i, nh, 25) for i in range(16)]):
         res.merge(r)
     res.rule = ('container: every sequence over get/set x 3 keys of length <= %d for capacities 0-3 followed by all reads, '
                 'plus random sequences (<= 60 operations, 2-8 keys, capacities 0-7); non-trivial = an eviction or a miss occurred; '
@@ -238,4 +370,7 @@ def replay(ctx, case):
         return lru_oracle(case['cap'], case['ops'], case.get('nkeys', max([NKEYS] + [op[1] + 1 for op in case['ops'] if len(op) > 1])))[0]
     if kind == 'lru-inherited':
         return inherited_case(case)
+    if kind == 'hist':
+        root = os.path.join(proto.ROOT, '.build', 'c15-replay-%d' % os.getpid())
+        return run_history(case['cfg'], case['ops'], case.get('strict', True), root, want_answers=False)[0]
     raise ValueError(kind)
